@@ -70,6 +70,18 @@ CHECKS = {
    text="Iterators are started on, just before and just after transitions of every zone, at range limits and random instants, in both directions; monotonicity, strictness, per-item info (vs data and vs direct lookup), completeness and absence of spurious items are checked over the covered range; featured/synthetic zones (all zones in thorough) are iterated to exhaustion with a termination cap.",
    note="Trusted: reftz.rs transition list. Recorded transitions that change nothing may be yielded (allowed by the statement).",
    design="DESIGN.md section 3 C14"),
+ "C15": dict(
+   technique="round-trip / metamorphic proptest over (Span or SignedDuration) x jointly drawn friendly printer configuration and ISO option; lossless configurations must re-parse unit for unit, every configuration within one unit of the last printed digit; humantime crate as independent reader of HumanTime output",
+   category="exploration",
+   text="Limit-biased spans and durations are printed under randomly drawn printer configurations (designator, spacing, direction, fractional unit, comma, HH:MM:SS, padding, precision, zero unit) and re-parsed; ISO 8601 output likewise.",
+   note="Calendar units compared fieldwise; uniform units folded into an i128 total (days=24h) only for comparison. Listed finding: durations with i64::MIN seconds do not re-parse from the friendly form.",
+   design="DESIGN.md section 3 C15"),
+ "C16": dict(
+   technique="differential proptest: every strftime specifier x flag x width against the walked reference calendar rendered with jiff's documented padding rules and against glibc strftime (libc) numerically; round trips through generated multi-specifier formats; contradiction injection; RFC 2822 field-by-field independent read",
+   category="exploration",
+   text="Zoned values in 19 zones (sub-minute and extreme fixed offsets), dates over-weighted to year boundaries, all specifiers with all flags and widths; strptime(strftime(v)) == v for 21 formats; perturbed weekdays must be rejected; RFC 2822 print/parse incl. obsolete zone names.",
+   note="Text layout follows jiff's own documented table (POSIX fidelity is a documented non-goal); only calendar facts are compared with glibc. Listed findings: padding widths > 19 are capped; %A cannot parse 'Tuesday' (typo pinned by a snapshot test).",
+   design="DESIGN.md section 3 C16"),
 }
 
 NOT_YET = {
